@@ -13,14 +13,19 @@ CHECK = dict(
          "rebase precondition) x source on a model registry or an OCI layout, named by tag, digest or tag+digest x target (default digest, new tag, replace, other repo by tag or digest, other "
          "registry, registry<->layout; empty, stale tag or stale digest reference) x registry feature sets (mount, anonymous mount, HEAD without digest, upload location styles, chunk minimum, "
          "referrers API) x context plan (live / cancelled before the call / cancelled at the k-th request) x program of 0-5 options with generated arguments from all 39 exported mod.With* "
-         "modifiers (+WithRefTgt, regctl's --time compositions; layer-add from a seekable or a streaming reader, empty tar, either media-type family) x optional second program applied to the "
-         "result with the same client. Oracle = independent audit of the closure of the returned reference in raw target storage (descriptor digest/size/inline data, diff_ids vs. decompressed "
+         "modifiers (+WithRefTgt, regctl's --time compositions; layer-add from a seekable or a streaming reader, empty tar, either media-type family) x client with or without the manifest cache regctl configures x optional second "
+         "program applied to the result with the same client. CLI engine (jobs cli / clireplay, in-package test of cmd/regctl): the same cases restricted to the 36 option kinds that have a flag, "
+         "run as `regctl image mod <src> [--create tag|full-ref] [--replace] <flags>` through NewRootCmd (target flags before or after the option flags, --create together with --replace in "
+         "either order) and judged by the same clauses on the target the DOCUMENTED flag semantics name (--create wins over --replace; neither = by digest in the source repository). Oracle = independent audit of the closure of the returned reference in raw target storage (descriptor digest/size/inline data, diff_ids vs. decompressed "
          "layers, history alignment, index entries, referrers and fall-back indexes) and of every manifest written, source frame condition on raw source storage, no-op programs return the source "
          "digest, same program on an identical fresh input returns the same digest (in-process for every case; in a second process with SOURCE_DATE_EPOC pinned for a sample: job crossproc), "
          "all re-checked after Close for layouts. Non-trivial = successful Apply of >=2 options of which at least one touches layers or media types; distinct by (option multiset, image shape, endpoints).",
     jobs=[dict(REPLAY, env=_ENV),
           rapid("prop", "TestVerifProp", 18000, 160000, sq=16, st=16, env=_ENV),
-          rapid("crossproc", "TestVerifCrossProc", 480, 6400, sq=8, st=16, env=_ENV)],
+          rapid("crossproc", "TestVerifCrossProc", 480, 6400, sq=8, st=16, env=_ENV),
+          # CLI engine: regctl image mod through NewRootCmd (in-package test of cmd/regctl, build tag c13)
+          plain("clireplay", "TestVerifC13CLIReplayDir", pkgdir="cmd/regctl", tags="verif,c13", env=_ENV),
+          rapid("cli", "TestVerifC13CLI", 4000, 40000, sq=8, st=16, pkgdir="cmd/regctl", tags="verif,c13", env=_ENV)],
     technique="property-based testing (rapid): generated images, endpoint pairings and option programs run through mod.Apply against an in-process model registry and raw OCI layouts; "
               "independent closure auditor (encoding/json, crypto, compress/gzip, zstd) as oracle",
     level_text="Generated-input search over image shapes, endpoint pairings and programs of modification options; every successful mod.Apply is audited from raw target storage "
